@@ -220,9 +220,12 @@ class World:
 
 
 def norm_lenient(st):
-    """Only entries that can influence an answer of the repaired code: the stored objects of verified peers."""
+    """Only entries that can influence an answer of the repaired code: the stored objects of verified peers that
+    advertise the service (a removed peer's object lingers in reverse_service_lookup until the peer, re-added,
+    advertises the service again - discover_services then replaces it)."""
     out = {k: st[k] for k in LENIENT}
-    out["svcCache"] = tuple((s, frozenset(p for p, m in ents if m == 0 and p in st["verified"]))
+    out["svcCache"] = tuple((s, frozenset(p for p, m in ents if m == 0 and p in st["verified"]
+                                          and s in st["services"][p - 1]))
                             for s, ents in st["svcCache"])
     return out
 
@@ -868,8 +871,9 @@ def run(tier, seed, replay=None):
                         "returned Peer instances are not demanded)",
                         "get_introductions_from and the contents of the caches are outside the statement: compared but "
                         "only reported as impl_layer_drift",
-                        "exhaustive depth in the 3x3x2 universe is below the 6 named in the property (branching ~90 "
-                        "calls per state); depth 6-7 is reached in the 2x2x1 universe, 3x3x2 is sampled to depth 14-30"]
+                        "the exhaustive depth in the 3x3x2 universe (%d calls, ~90 enabled calls per state) is below the 6 "
+                        "named in the property; %d calls are exhausted in the 2x2x1 universe and 3x3x2 is sampled by "
+                        "TLC -simulate to depth %d" % ((3, 5, 14) if tier == "quick" else (4, 7, 30))]
     rng = random.Random(seed)
     q = tier == "quick"
     ncpu = os.cpu_count() or 4
@@ -882,18 +886,20 @@ def run(tier, seed, replay=None):
         universes.append(("v6_2x3x2", consts(2, 3, 2, v6=[3], caps=(1, 1, 1), depth=3), 4))
     # the universe named in the property (3 peers x 3 addresses x 2 services): model checked (no dump) and sampled
     big = consts(3, 3, 2, v6=[3], caps=(2, 2, 1), depth=3 if q else 4)
-    nsim, dsim = (150, 14) if q else (4000, 30)
+    nsim, dsim = (150, 14) if q else (2500, 30)
     ctl_c = consts(2, 2, 1, caps=(1, 1, 1), depth=3)
     # binding T: record first (cheap), so that TLC validates while the graphs are replayed
     w = World(TRACE_C, seed)
     ntr, length = (24, 200) if q else (300, 200)
     traces = [record_trace(w, rng, length) for _ in range(ntr)]
     bad1 = json.loads(json.dumps(traces[:1]))
-    ev = next(e for e in bad1[0]["events"] if e["op"] == "GetWalkable" and e["ret"])
-    ev["ret"] = ev["ret"][:-1]
     bad2 = json.loads(json.dumps(traces[:1]))
-    ev = next(e for e in bad2[0]["events"] if e["op"] == "RemovePeer")
-    ev["verified"] = sorted(set(ev["verified"]) | {ev["p"]})
+    ev1 = next((e for e in bad1[0]["events"] if e["op"] == "GetWalkable" and e["ret"]), None)
+    ev2 = next((e for e in bad2[0]["events"] if e["op"] == "RemovePeer"), None)
+    if ev1 is None or ev2 is None:
+        raise MachineryError("the first recorded history has no non-empty GetWalkable / no RemovePeer to corrupt")
+    ev1["ret"] = ev1["ret"][:-1]
+    ev2["verified"] = sorted(set(ev2["verified"]) | {ev2["p"]})
 
     tmp = scratch_dir("c12-")
     ex = ThreadPoolExecutor(max_workers=12)
@@ -914,10 +920,10 @@ def run(tier, seed, replay=None):
         ctx.control("replay flags a Network whose remove_peer leaves the by-key index behind",
                     any(s.startswith(("replay:GetByKey:answer", "replay:AddVerified")) for s in rp.signatures()))
         for tag, c, _cd in universes:
-            replay_graph(ctx, c, tag, seed, f_dump[tag].result(),
-                         all_depth=(3 if tag == "small_2x2x1" else 2) if q else (4 if tag == "small_2x2x1" else 3))
-        if True:
-            replay_simulate(ctx, dict(big, MaxDepth=dsim), "sim_3x3x2", seed, f_sim.result(), dsim)
+            # all call sequences up to this length first, then every remaining (state, call) pair of the graph once
+            all_depth = {"small_2x2x1": 3 if q else 4, "v6_2x3x2": 2}.get(tag, 2 if q else 3)
+            replay_graph(ctx, c, tag, seed, f_dump[tag].result(), all_depth=all_depth)
+        replay_simulate(ctx, dict(big, MaxDepth=dsim), "sim_3x3x2", seed, f_sim.result(), dsim)
         trace_verdict(ctx, traces, f_trace.result(), "trace")
         ctx.sample({"part": "trace", "recorded_history_first_events": traces[0]["events"][:2]})
         ctx.control("trace with one walkable address dropped from an answer is rejected",
